@@ -119,6 +119,24 @@ static int reenter(int rounds){ G=dispatch_group_create();
     if(!ok){ fail("a thread blocked in dispatch_group_wait(FOREVER) was left behind although the count reached zero (group re-entered right after): round/reuse-kind",r,k,0); break; }
     for(int i=0;i<nw;i++) pthread_join(th[i],0); }
   _dispatch_verif_atomic_cb = 0; _dispatch_verif_yield_cb = 0; return rounds; }
+// ---- waiters with and without timeout on the same generation: the ones whose timeout expires must not take the others' wake-up away
+static atomic_int mx_forever_ret, mx_timed_ret;
+static void *mx_forever(void *a){ (void)a; long r=dispatch_group_wait(G,DISPATCH_TIME_FOREVER); if(r) fail("dispatch_group_wait(FOREVER) returned non-zero",r,0,0); atomic_fetch_add(&mx_forever_ret,1); return NULL; }
+static void *mx_timed(void *a){ uint64_t to=(uint64_t)(uintptr_t)a; uint64_t t0=now_ns(); long r=dispatch_group_wait(G,dispatch_time(DISPATCH_TIME_NOW,(int64_t)to)); uint64_t t1=now_ns();
+  if(r && t1-t0<to) fail("dispatch_group_wait returned non-zero before its timeout elapsed: ns early",(long)(to-(t1-t0)),0,0); atomic_fetch_add(&mx_timed_ret,1); return NULL; }
+static int mixed(int rounds){ G=dispatch_group_create();
+  _dispatch_verif_yield_cb = ycb; _dispatch_verif_atomic_cb = cb;
+  for(int r=0;r<rounds && !viol;r++){ atomic_store(&mx_forever_ret,0); atomic_store(&mx_timed_ret,0); dispatch_group_enter(G);
+    int nf=1+(int)(rnd()%3), nt=1+(int)(rnd()%3); pthread_t tf[4], tt[4];
+    for(int i=0;i<nf;i++) pthread_create(&tf[i],0,mx_forever,0);
+    for(int i=0;i<nt;i++) pthread_create(&tt[i],0,mx_timed,(void*)(uintptr_t)(500000+rnd()%2500000));   // 0.5 - 3 ms
+    for(int w=0; w<4000 && atomic_load(&mx_timed_ret)<nt; w++) usleep(500);                                // every timed waiter has timed out
+    if(rnd()%2) usleep(rnd()%1000);
+    dispatch_group_leave(G);                                                                               // the count reaches zero
+    int ok=0; for(int w=0; w<5000; w++){ if(atomic_load(&mx_forever_ret)==nf){ ok=1; break; } usleep(1000); }
+    if(!ok){ fail("a thread blocked in dispatch_group_wait(FOREVER) was left behind although the count reached zero (other waiters of the same generation had timed out before): round/forever/timed",r,nf,nt); break; }
+    for(int i=0;i<nf;i++) pthread_join(tf[i],0); for(int i=0;i<nt;i++) pthread_join(tt[i],0); }
+  _dispatch_verif_atomic_cb = 0; _dispatch_verif_yield_cb = 0; return rounds; }
 // ---- forced F9 schedule
 static atomic_int in_window, go_on, ran1, ran2; static __thread int is_b;
 static void ycb9(const volatile void *addr, const char *func, int line){ (void)addr;(void)line;
@@ -147,6 +165,7 @@ int main(int argc, char **argv){
   int items;
   if(!strcmp(mode,"quiet")){ items=quiet(argc>3?atoi(argv[3]):200); }
   else if(!strcmp(mode,"reenter")){ items=reenter(argc>3?atoi(argv[3]):100); }
+  else if(!strcmp(mode,"mixed")){ items=mixed(argc>3?atoi(argv[3]):60); }
   else { int nthr = argc>3 ? atoi(argv[3]) : 4; nops = argc>4 ? atoi(argv[4]) : 300; use_ga = argc>5 ? atoi(argv[5]) : 0; items=storm(nthr); }
   printf("OFF state 48\n");
   if (viol) printf("ORACLE VIOL seed=%llu %s\n",(unsigned long long)seed,vmsg);
